@@ -50,7 +50,7 @@ macro_rules! impl_div_or_rem_for_fbig {
         }
     };
 }
-impl_div_or_rem_for_fbig!(impl Div, div, repr_div);
+impl_div_or_rem_for_fbig!(impl Div, div, repr_div_shrunk);
 impl_div_or_rem_for_fbig!(impl Rem, rem, repr_rem);
 impl_binop_assign_by_taking!(impl DivAssign<Self>, div_assign, div);
 impl_binop_assign_by_taking!(impl RemAssign<Self>, rem_assign, rem);
@@ -214,6 +214,26 @@ fn align_as_int<R: Round, const B: Word>(lhs: FBig<R, B>, rhs: FBig<R, B>) -> (I
 }
 
 impl<R: Round> Context<R> {
+    /// Division used by the `/` operators: like [Context::div], the dividend is first shrunk when it
+    /// holds more digits than `repr_div` can deal with.
+    pub(crate) fn repr_div_shrunk<const B: Word>(
+        &self,
+        lhs: Repr<B>,
+        rhs: Repr<B>,
+    ) -> Rounded<Repr<B>> {
+        assert_finite_operands(&lhs, &rhs);
+        assert_limited_precision(self.precision);
+
+        let lhs = if !lhs.is_zero() && lhs.digits_ub() > rhs.digits_lb() + self.precision {
+            Self::new(rhs.digits() + self.precision)
+                .repr_round(lhs)
+                .value()
+        } else {
+            lhs
+        };
+        self.repr_div(lhs, rhs)
+    }
+
     pub(crate) fn repr_div<const B: Word>(&self, lhs: Repr<B>, rhs: Repr<B>) -> Rounded<Repr<B>> {
         assert_finite_operands(&lhs, &rhs);
         assert_limited_precision(self.precision);
